@@ -336,6 +336,25 @@ func main() {
 			g.Emit("M n z l;s5=1;l", true, "zero-map", "zero-map-set")
 			g.Emit("M r z F0;n0;p0;k;t;@s1=1", true, "zero-map", "zero-map-set")
 			g.Emit("M n n l;k;t;g5;d5;c;F0;L1;S2=5;n0;p1;n2;N0;P1", true, "empty-map")
+			// 2b. random histories on the zero Map: reads, Delete, Clear and iterators (Set only as the last op)
+			for i := 0; i < g.Scale(200, 3000); i++ {
+				ops := x.history(4+r.Intn(8), 5+r.Intn(25), true)
+				for j, o := range ops {
+					o2 := strings.TrimPrefix(o, "@")
+					if strings.HasPrefix(o2, "s") {
+						ops[j] = strings.Replace(o, "s", "d", 1)
+						if i := strings.IndexByte(ops[j], '='); i >= 0 {
+							ops[j] = ops[j][:i]
+						}
+					}
+				}
+				tags := []string{"zero-map"}
+				if r.Chance(1, 3) {
+					ops = append(ops, "s"+strconv.Itoa(r.Intn(9))+"=1", "l")
+					tags = append(tags, "zero-map-set")
+				}
+				x.g.Emit("M "+[]string{"n", "r", "m5"}[r.Intn(3)]+" z "+strings.Join(ops, ";"), true, tags...)
+			}
 			// 3. random histories
 			for i := 0; i < g.Scale(9000, 90000); i++ {
 				cmps := "n"
